@@ -442,6 +442,22 @@ def rule_qos(R):
         s = peel(si["subject"])
         if is_call(s, "PartialEq::eq", "eq") and any(x[0] == "agg" and x[3] == "ExactlyOnce" for x in walk(s)):
             uses.append(("handle kind", peel(s[3][0]), code.line(bb)))
+        # `match qos { AtMostOnce => None, _ => Some(next_packet_id()) }`
+        if si["enum"] and si["enum"].endswith("QoS") and P_.alloc_sites and not any(u[0] == "identifier decision" for u in uses):
+            amo = si["edges"].get("AtMostOnce")
+            others_ = [(bb, t_) for k_, t_ in si["edges"].items() if k_ != "AtMostOnce"]
+            if si["otherwise"] not in si["edges"].values() and code.blocks[si["otherwise"]]["term"]["k"] != "unreachable":
+                others_.append((bb, si["otherwise"]))
+            if amo is not None and others_ and all(code.must_pass([0], [a], via_edges=others_)[0] for a in P_.alloc_sites) \
+                    and not any(a in code.reach([amo], avoid=[bb]) for a in P_.alloc_sites):
+                uses.append(("identifier decision", s, code.line(bb)))
+        # `match qos { ExactlyOnce => PublishExactlyOnce, .. }`
+        if si["enum"] and si["enum"].endswith("QoS") and si["edges"].get("ExactlyOnce") is not None \
+                and not any(u[0] == "handle kind" for u in uses):
+            kinds_ = [bb2 for bb2, j2, s2 in code.assigns() if bb2 in code.reachable and "agg" in s2["rv"]
+                      and s2["rv"]["agg"].get("variant") == "PublishExactlyOnce"]
+            if kinds_ and all(code.must_pass([0], [k_], via_edges=[(bb, si["edges"]["ExactlyOnce"])])[0] for k_ in kinds_):
+                uses.append(("handle kind", s, code.line(bb)))
         # `if qos > AtMostOnce { Some(next_packet_id()) } else { None }` -- also what `(qos > ..).then(|| ..)` reads as
         if is_call(s, "PartialOrd::gt", "gt") and any(x[0] == "agg" and x[3] == "AtMostOnce" for x in walk(s)) \
                 and si["edges"].get(True) is not None and P_.alloc_sites \
